@@ -11,6 +11,12 @@
 (*                 any time the worker is in the select)                      *)
 (*   Attempt(k)    one flush(): the POST reaches the endpoint, which answers  *)
 (*                 with the next outcome of the environment's fault sequence  *)
+(*                 (2xx, 4xx, 5xx, timeout = no answer until the client gives *)
+(*                 up, reset, stall = a failure status line and headers       *)
+(*                 arrive, then the response BODY stalls - or trickles - on   *)
+(*                 the open connection until the client gives up: the route's *)
+(*                 timeout covers the whole exchange, so the attempt fails    *)
+(*                 and is retried like any other)                             *)
 (*   Backoff       the sleep between two attempts                             *)
 (*   Shutdown      Protocol = "pinned": the code as found (one send on the    *)
 (*                 shutdown channel, received by one worker, which flushes    *)
@@ -40,7 +46,7 @@ CONSTANTS NW,           \* Concurrency
           FlushMaxNum,
           NSeries, MaxMetrics,
           MaxFaults,    \* the environment injects at most this many failures (finitely many)
-          FaultKinds,   \* subset of {"4xx", "5xx", "timeout", "reset"}
+          FaultKinds,   \* subset of {"4xx", "5xx", "timeout", "reset", "stall"}
           Blocking,     \* dispatchBlocking / dispatchNonBlocking
           NDisp,        \* Dispatch calls in progress at a time (dispatcher goroutines)
           Outage,       \* the endpoint answers no POST with 2xx before the shutdown signal
@@ -56,6 +62,7 @@ None == [id |-> 0]
 VARIABLES in,      \* [Workers -> Seq(<<series, id>>)]
           batch,   \* [Workers -> Seq(<<series, id>>)]   `metrics` of run()
           pc,      \* [Workers -> "select" | "num" | "attempt" | "backoff" | "drain" | "exited"]
+                   \* ("blocked": only under the deviation stalled_body_blocks_forever)
           ret,     \* [Workers -> where retryFlush returns to: "select" | "exit" | "drain" | "done"]
           calls,   \* Dispatch calls in progress that have not reached the channel operation: set of [id, s]
           sendq,   \* [Workers -> Seq(<<series, id>>)]   callers parked on the full in[w] (blocking mode), FIFO
@@ -159,12 +166,17 @@ Return(w) ==
     [] ret[w] = "done"   -> pc' = [pc EXCEPT ![w] = "exited"] /\ wg' = wg - 1          \* repaired: deferred Done
 
 GiveUp(k) == Mutant = "give_up" /\ k = "4xx"      \* deviation: a client error is not retried
+\* deviation: the timeout only bounds the wait for the response headers; once they have arrived nothing bounds the
+\* read of the response body, so a body that stalls on the open connection blocks the worker for good
+StallBlocks(k) == Mutant = "stalled_body_blocks_forever" /\ k = "stall"
 Attempt(w, k) ==
   /\ pc[w] = "attempt" /\ k \in Outcomes
   /\ o' = OPost(o, batch[w], k, 0) /\ hist' = H([op |-> "f", k |-> k])
   /\ nfaults' = IF k = "2xx" \/ Down THEN nfaults ELSE nfaults + 1
   /\ IF k = "2xx" \/ GiveUp(k)
      THEN batch' = [batch EXCEPT ![w] = <<>>] /\ Return(w)
+     ELSE IF StallBlocks(k)
+     THEN pc' = [pc EXCEPT ![w] = "blocked"] /\ UNCHANGED <<batch, wg>>      \* no action of w is enabled anymore
      ELSE /\ pc' = [pc EXCEPT ![w] = "backoff"]
           /\ batch' = IF Mutant = "retry_reorders" /\ Len(batch[w]) > 1
                       THEN [batch EXCEPT ![w] = Tail(@) \o <<Head(@)>>] ELSE batch
